@@ -279,7 +279,7 @@ Definition is_i32 (v : Z) : bool := in_range (-2147483648) 2147483647 v.
 Definition is_n31 (v : Z) : bool := in_range 0 2147483647 v.
 Definition clean_text (s : list Z) : bool :=
   forallb (fun c => byte_ok c && negb (c =? 124) && negb (c =? 10)) s.
-Definition one_line (s : list Z) : bool := forallb (fun c => byte_ok c && negb (c =? 10)) s.
+Definition single_line (s : list Z) : bool := forallb (fun c => byte_ok c && negb (c =? 10)) s.
 
 Definition rep_rgb (c : ColorRGB) : bool := is_u32 (cr_red c) && is_u32 (cr_green c) && is_u32 (cr_blue c).
 Definition rep_color (c : Color) : bool :=
